@@ -71,8 +71,10 @@ class Result:
         """fail closed when a rule matched fewer instances than were confirmed by hand"""
         self.floors.append({"rule": name, "matched": count, "floor": minimum})
         if count < minimum:
-            raise AnalysisError("rule %s matched %d instances, fewer than the confirmed floor %d "
-                                "(the rule would pass vacuously)" % (name, count, minimum))
+            # deferred to the end of the run (finish): the remaining rules still run, and a violation they find is reported as such;
+            # without one the run ends as ANALYSIS-ERROR, exactly as if raised here
+            DEFERRED.append("rule %s matched %d instances, fewer than the confirmed floor %d "
+                            "(the rule would pass vacuously)" % (name, count, minimum))
 
     def trust(self, *facts):
         for f in facts:
@@ -90,11 +92,19 @@ def load_known():
         return json.load(fh)
 
 
+DEFERRED = []          # floor failures of this run (one process = one property), in the order they were met
+
+
 def finish(result, tier, t0, selftest=None, prog=None):
     """Match findings against the known-findings file, write evidence, print, return exit code."""
     known = load_known()
     known_keys = {k["key"]: k for k in known.get("findings", []) if k.get("property") == result.prop}
     new = [f for f in result.findings if f.key not in known_keys]
+    if DEFERRED and not new:
+        raise AnalysisError(DEFERRED[0])
+    for msg in DEFERRED:
+        print("ANALYSIS-NOTE property=%s %s" % (result.prop, msg))
+        result.notes.append("below floor: " + msg)
     listed = [f for f in result.findings if f.key in known_keys]
     stale = [k for k in known_keys if k not in {f.key for f in result.findings}]
 
